@@ -7,6 +7,8 @@ import (
 	"encoding/json"
 	"fmt"
 	"hash/fnv"
+	"io"
+	"log"
 	"os"
 	"os/exec"
 	"path/filepath"
@@ -726,6 +728,9 @@ func Main(args []string) int {
 	// in every mode (coordinator, worker, replay) the step budget must run out before the stack does:
 	// 1e6 steps of the deepest recursion seen (json.Marshal through MarshalJSON methods, ~1.5 KB of stack per step)
 	debug.SetMaxStack(4 << 30)
+	// the library's default log callbacks write every rejected request to the standard logger: gigabytes per run.
+	// (runtime crash reports do not go through the log package and still reach the worker's stderr file)
+	log.SetOutput(io.Discard)
 	if len(args) < 1 {
 		fmt.Fprintln(os.Stderr, "usage: check <ID> quick|thorough | check <ID> --replay <file> | check list")
 		return 2
